@@ -94,10 +94,33 @@ DESCR = {
                'a backward message (started after the final message) followed in the same main-loop batch by another message of the same task'),
     'S-C43b': ('scheduler.py: the stop point is forgotten whenever the automatic shutdown is decided, also when a stop task or the stop clock caused it',
                'a stop cycle point not yet reached together with a stop task (or stop clock time) that ends the run first'),
+    'S-C33b': ('xtrigger_mgr.py call_xtriggers_async: next call time counted from the previously scheduled time, not from now',
+               'a signature that goes more than one interval without being called (slow function, or checking lapses), then a burst of catch-up calls'),
+    'S-C45b': ('rundb.py select_abs_outputs_for_restart: GROUP BY cycle, name keeps one output per parent',
+               'two different outputs of one parent instance referenced by absolute triggers, both completed, restart, dependents spawned afterwards'),
+    'S-C46b': ('task_state.py _add_prerequisites: sequential prerequisite pre-satisfied against the initial instead of the start point',
+               'a sequential special task in a warm start (or behind start tasks)'),
+    'S-C04b': ('task_pool.py compute_runahead: limit capped at the stop point before the future-trigger extension is added',
+               'a future trigger with its dependent pooled + a stop point earlier than the final point + base close to the stop point'),
+    'S-C31b': ('config.py: sequential family expanded through first-parent descendants only',
+               '`sequential = FAMILY` with a member inheriting the family as a second parent, and a runahead limit admitting several instances'),
+    'S-C05b': ('task_pool.py count_active_tasks: a released-awaiting-preparation task in the waiting state no longer counted',
+               'a manually triggered queued task and a queue release in the same main-loop pass (trigger then resume, or a slot freed just then)'),
+    'S-C08b': ('task_pool.py _get_task_history: history rows with a lower submit number than the latest ignored',
+               'a task complete in flow 1, run again in flow 2, then reached again by flow 1'),
+    'S-C21b': ('rundb.py: public-DB retry counter incremented per failed statement only, not for a failed commit',
+               'a reader lock on the public DB (statements succeed, commit fails) held for MAX_TRIES writes'),
     'S-C31': ('cycling/integer.py get_nearest_prev_point reduced to get_prev_point',
               'sequential task on a finite recurrence followed after a gap by another recurrence'),
 }
 NOTES = {
+    'S-C45b': 'first missed, for two reasons: few runs had two different absolute outputs of one parent (the stop-mode generator now makes them), and the C45-F2 predicate (an earlier instance of the dependent already finished) also matched instances spawned after the output completed, so the seeded violations were filed under the known finding; the predicate now requires the instance to have been pooled before the output completed',
+    'S-C46b': 'first missed: C46 had no sequential special tasks; adding them also exposed a genuine defect (fix 0cec6cb)',
+    'S-C31b': 'first missed: sequential tasks were always listed by name; the generator now also lists them through a family inherited as first or second parent',
+    'S-C05b': 'first missed: the C05 workload had no manual triggers and the oracle excused any excess that involved a manually triggered member; command mode added, and a queue release on top of a manual member is now a violation',
+    'S-C08b': 'first missed: random flow commands rarely line up; a biased pair (re-run a finished task in flow 2, then re-trigger its parent in flow 1) was added',
+    'S-C21b': 'first missed: public locks failed every statement, and nothing checked the copy-recovery at the MAX_TRIES threshold; commit-only locks and a threshold sub-check added',
+    'S-C04b': 'also caught by C43 (submission beyond the stop point)',
     'S-C27b': 'first missed: no C27 run had an unsatisfied prerequisite whose output was in the DB; the workload now removes a partially satisfied waiting task before the reload (another parent respawns it)',
     'S-C10b': 'first missed: the poll that must follow a backward message was recorded but never checked; C10 now requires a poll of that job within 12 iterations unless the task left the pool or went back to waiting',
     'S-C43b': 'first missed (C43 and C19): no run combined a stop point with a stop task; C43 now does in half of its stop-task cases and requires the unreached stop point to survive in the DB',
